@@ -28,6 +28,7 @@ TECHNIQUE = 'exhaustive enumeration of the label-kind decision domain, key sets,
 RULE += " Augmented dictionaries come in two forms: 8-bit extras, and extras that OWN a reference (leaf: extra's reference before the value's; fork: left, right, then the extra's), for all label-kind assignments and all prunings."
 ASSUMPTIONS = ['tries with more than 7 edges: label-kind assignments bounded to <= 2 deviations from canonical']
 NOT_ASSERTED = ['rejection of malformed dictionaries']
+RULE += ' Sixth session: the map object is edited after serialize() (set_int_key, .map item assignment, pop, a new dict) - the next serialize() is the canonical tree of the map as it is then.'
 
 
 def BOUNDS(tier):
